@@ -24,6 +24,7 @@ def main():
     ap.add_argument("seed"); ap.add_argument("prop"); ap.add_argument("agentdir")
     ap.add_argument("--checks", default=""); ap.add_argument("--needs", default=""); ap.add_argument("--tier", default="quick")
     ap.add_argument("--keep", action="store_true")
+    ap.add_argument("--demo-cmd", default="", help="build-and-run command of the demonstration, run in the scratch worktree (overrides the README line); {d} = worktree")
     a = ap.parse_args()
     adir = a.agentdir.rstrip("/")
     cdir = "/tmp/confirm_%s" % a.seed
@@ -47,9 +48,13 @@ def main():
             if os.path.isfile(f) and not os.access(f, os.X_OK):
                 shutil.copy(f, os.path.join(cdir, "demo"))
         lines = [l.strip() for l in readme.splitlines() if re.search(r"\b(gcc|clang|cc)\b", l) and "demo" in l]
-        assert lines, "no compile line in README"
+        assert lines or a.demo_cmd, "no compile line in README"
+        if not lines:
+            lines = ["true"]
         demo_cmd = " && ".join(lines).replace(adir, cdir) if len(lines) > 1 and all("&&" not in l for l in lines) else lines[-1].replace(adir, cdir)
         demo_cmd = re.sub(r';\s*echo\s+"?exit=\$\?"?\s*$', "", demo_cmd)
+        if a.demo_cmd:
+            demo_cmd = a.demo_cmd.replace("{d}", cdir)
         rc1, out1 = sh("timeout 300 bash -c %s" % json.dumps(demo_cmd), cwd=cdir)
         meta["ran"].append({"cmd": "demo with patch: " + demo_cmd, "rc": rc1, "output_tail": out1[-600:]})
         rc, out = sh("git apply -R %s && cmake --build _build" % patch, cwd=cdir); assert rc == 0, out[-1000:]
